@@ -37,6 +37,37 @@ def parse_dot(text):
     return {"nodes": nodes, "edges": edges, "boxes": boxes, "box_edges": box_edges}
 
 
+def parse_dot_cells(text):
+    """RAW cells of every node label (no unescaping, markup kept): node id -> {"border", "head": (port, border size, raw
+    comments html), "rows": [(colour, raw html before the `N. text` part, line number, raw text html)]}"""
+    nodes = {}
+    for m in re.finditer(r'^(\d+)\[label=<<TABLE ALIGN="LEFT" COLOR="([^"]+)">\n(.*?)</TABLE>> labelloc=top shape=plain\n\]', text, re.M | re.S):
+        body = m.group(3)
+        cells = re.findall(r"<TR>(.*?)</TR>\n", body, re.S)
+        head, rows, junk = None, [], []
+        for k, c in enumerate(cells):
+            h = re.fullmatch(r'<TD COLOR="BLACK" ALIGN="LEFT" BALIGN="LEFT" PORT="(\d+)" BORDER="(\d+)"><B>(.*)</B></TD>', c, re.S)
+            r = re.fullmatch(r'<TD ALIGN="LEFT" BALIGN="LEFT" COLOR="([^"]+)">(.*)</TD>', c, re.S)
+            if h and k == 0:
+                head = (int(h.group(1)), int(h.group(2)), h.group(3))
+            elif r:
+                inner = r.group(2)
+                # the `N. text` part starts after the last <BR/> (comments end with <BR/>, escaped text contains no <)
+                cut = inner.rfind("<BR/>")
+                pre, last = (inner[: cut + 5], inner[cut + 5:]) if cut >= 0 else ("", inner)
+                q = re.fullmatch(r"(\d+)\. (.*)", last, re.S)
+                if q:
+                    rows.append((r.group(1), pre, int(q.group(1)), q.group(2)))
+                else:
+                    junk.append(c)
+            else:
+                junk.append(c)
+        if "".join(f"<TR>{c}</TR>\n" for c in cells) != body:
+            junk.append("text between the cells")
+        nodes[int(m.group(1))] = {"border": m.group(2), "head": head, "rows": rows, "junk": junk}
+    return nodes
+
+
 def extract_json(out):
     i = out.find("{")
     if i < 0:
